@@ -169,6 +169,10 @@ struct Shadows {
 	b: Inst,
 	sum: Inst,
 	scaled: Inst,
+	/// the same input at a very low level: 2^-k · x (C13 scaling, relative to the output)
+	tiny: Inst,
+	/// reverb only: the same reverb at stereo width 1 (its wet output is the raw left / right network output)
+	wide: Option<Inst>,
 }
 
 const SCALE: f32 = -0.5;
@@ -204,6 +208,14 @@ struct Case {
 	op_no: u64,
 	salt: u64,
 	lcg: u32,
+	/// fixed stereo width given to the builder (reverb; None once it is set through the handle or modulated)
+	sw_fixed: Option<f64>,
+	/// delay: the probe effects in the feedback loop, their states as the documented recurrence has them,
+	/// everything written into the line since the last init / rate change, and the largest magnitude involved
+	chain: Vec<(f32, f32, f32)>,
+	chain_prev: Vec<(f64, f64)>,
+	line: Vec<(f64, f64)>,
+	line_max: f64,
 }
 
 fn amp_of_db(db: f32) -> f64 {
@@ -260,6 +272,11 @@ impl Case {
 			op_no: 0,
 			salt,
 			lcg: 0,
+			sw_fixed: None,
+			chain: vec![],
+			chain_prev: vec![],
+			line: vec![],
+			line_max: 0.0,
 		}
 	}
 
@@ -271,7 +288,21 @@ impl Case {
 			b: Inst::build(tok, ids),
 			sum: Inst::build(tok, ids),
 			scaled: Inst::build(tok, ids),
+			tiny: Inst::build(tok, ids),
+			wide: if tok[0] == "reverb.new" {
+				let one = fix64(1.0);
+				let mut t: Vec<&str> = tok.to_vec();
+				t[3] = &one;
+				Some(Inst::build(&t, ids))
+			} else {
+				None
+			},
 		});
+		self.chain = if tok[0] == "delay.new" { parse_chain(tok[4]) } else { vec![] };
+		self.chain_prev = vec![(0.0, 0.0); self.chain.len()];
+		self.line.clear();
+		self.line_max = 0.0;
+		self.sw_fixed = None;
 		self.stagnant = true;
 		self.in_domain = true;
 		self.dirty = false;
@@ -305,6 +336,9 @@ impl Case {
 				if k == 4 {
 					self.mix_fixed = if fx { Some(pts[0] as f32) } else { None };
 				}
+				if k == 3 {
+					self.sw_fixed = if fx { Some(pts[0]) } else { None };
+				}
 			}
 			self.stagnant = all_fixed;
 			self.linear = true;
@@ -334,6 +368,13 @@ impl Case {
 			sh.b.control(tok, ids);
 			sh.sum.control(tok, ids);
 			sh.scaled.control(tok, ids);
+			sh.tiny.control(tok, ids);
+			if let Some(w) = sh.wide.as_mut() {
+				// the width-1 companion follows everything but the width
+				if !(tok[0] == "set" && tok[1] == "sw") {
+					w.control(tok, ids);
+				}
+			}
 		}
 		match tok[0] {
 			"init" | "rate" => {
@@ -343,6 +384,7 @@ impl Case {
 					self.initialized = true;
 				}
 				self.frame_no = 0;
+				self.line.clear();
 				self.echo_ok = self.kind == Kind::Delay && self.stagnant && self.memoryless && self.initialized;
 			}
 			"set" => {
@@ -350,6 +392,7 @@ impl Case {
 				self.echo_ok = false;
 				self.mix_fixed = None;
 				self.fb_db = None;
+				self.sw_fixed = None;
 				if self.kind == Kind::Reverb {
 					let (which, is32) = match tok[1] {
 						"fb" => (1, false),
@@ -462,10 +505,20 @@ impl Case {
 			premise("echo");
 			self.check_echoes(input, &main_out, line, out);
 		}
+		// --- the delay line recirculates through the feedback effects, then the feedback gain (any probe chain)
+		if self.kind == Kind::Delay && self.stagnant && self.initialized && self.in_domain && !self.nonfinite && !self.chain.is_empty() {
+			if let (Some(db), Some(mix)) = (self.fb_db, self.mix_fixed) {
+				premise("delay_recurrence");
+				self.check_recurrence(input, &main_out, db, mix, line, out);
+			}
+		}
 		self.frame_no += n as u64;
 		// --- shadows
 		if let (Some(sh), false) = (self.shadows.as_mut(), self.nonfinite) {
 			let mut rng = Rng::new(self.salt ^ self.op_no.wrapping_mul(0x9E3779B97F4A7C15));
+			// the low level of this case: 2^-24, 2^-40 or 2^-56 (about -144, -240, -337 dB)
+			let tiny_k: i32 = [24, 40, 56][(self.salt % 3) as usize];
+			let tiny_c = 2f32.powi(-tiny_k);
 			let shadow_result = catch_unwind(AssertUnwindSafe(|| {
 				// split: same input, another partition
 				let mut split_out = input.to_vec();
@@ -496,14 +549,78 @@ impl Case {
 				sh.sum.fx.process(&mut sum_out, dt, &info);
 				let mut scaled_out: Vec<Frame> = input.iter().map(|a| *a * SCALE).collect();
 				sh.scaled.fx.process(&mut scaled_out, dt, &info);
-				(split_out, y, b_out, sum_out, scaled_out)
+				let mut tiny_out: Vec<Frame> = input.iter().map(|a| *a * tiny_c).collect();
+				sh.tiny.fx.process(&mut tiny_out, dt, &info);
+				let wide_out = sh.wide.as_mut().map(|w| {
+					let mut v = input.to_vec();
+					w.fx.process(&mut v, dt, &info);
+					v
+				});
+				(split_out, y, b_out, sum_out, scaled_out, tiny_out, wide_out)
 			}));
 			match shadow_result {
 				Err(_) => {
 					out.oracle_fail("shadow_panics", short(line));
 					self.shadows = None;
 				}
-				Ok((split_out, y, b_out, sum_out, scaled_out)) => {
+				Ok((split_out, y, b_out, sum_out, scaled_out, tiny_out, wide_out)) => {
+					let fin = |v: &Vec<Frame>| v.iter().all(|f| f.left.is_finite() && f.right.is_finite());
+					// --- C13 scaling at very low levels: fx(2^-k · x) = 2^-k · fx(x), relative to the output.
+					// Scaling by a power of two commutes with every IEEE rounding as long as nothing underflows, and
+					// both effects only multiply the signal by parameters and add (Reverb / comb / all-pass / Delay with
+					// a linear probe chain: C13_reverb_linear, C13_delay_linear over the reals), so the low-level run
+					// is the bit-exact image of the main run except where a value of the low-level run drops below
+					// 2^-126: there each operation errs by at most 2^-150, and the (in-domain, hence non-expanding:
+					// C13 BIBO bounds) network carries that to the output; 1e9 bounds operations x gain of a case.
+					// Back at the main run's scale that is 2^(k-150) · 1e9 — no term relative to the input level.
+					if self.linear && self.in_domain && fin(&tiny_out) {
+						premise("scaling_low_level");
+						let floor = 2f64.powi(tiny_k - 150) * 1e9;
+						let up = 2f64.powi(tiny_k);
+						for i in 0..n {
+							let el = (tiny_out[i].left as f64 * up - main_out[i].left as f64).abs();
+							let er = (tiny_out[i].right as f64 * up - main_out[i].right as f64).abs();
+							if el > floor || er > floor {
+								out.oracle_fail(
+									"scaling_low_level",
+									format!("frame {} scale 2^-{} residual {:e} of output {:e} | {}", i, tiny_k, el.max(er), main_out[i].left.abs().max(main_out[i].right.abs()), short(line)),
+								);
+								break;
+							}
+						}
+					}
+					// --- C14 "the reverb matches the Freeverb network it cites": the stereo width stage.
+					// With (L, R) the network's left / right output, Freeverb's output stage is
+					//   out.left = L·wet1 + R·wet2,  out.right = R·wet1 + L·wet2,  wet1 = width/2 + 1/2,  wet2 = (1 - width)/2,
+					// blended as wet·sqrt(mix) + dry·sqrt(1 - mix). The companion at width 1 (wet1 = 1, wet2 = 0) hands out
+					// (L, R)·sqrt(mix) + dry·sqrt(1 - mix), so A = companion - dry·sqrt(1 - mix) is the network output and
+					// the main instance has to give A.left·wet1 + A.right·wet2 (+ dry part), and the mirror image on the
+					// right. Tolerance: a handful of f32 roundings (2^-24 each) of the magnitudes involved: 1e-5.
+					if let (Some(wide), Some(sw), Some(mix), true) = (wide_out.as_ref(), self.sw_fixed, self.mix_fixed, self.stagnant) {
+						if fin(wide) && (0.0..=1.0).contains(&sw) {
+							premise("reverb_width_stage");
+							let m = (mix as f64).clamp(0.0, 1.0);
+							let dry = (1.0 - m).sqrt();
+							let (w1, w2) = (sw / 2.0 + 0.5, (1.0 - sw) / 2.0);
+							for i in 0..n {
+								let (dl, dr) = (input[i].left as f64 * dry, input[i].right as f64 * dry);
+								let (al, ar) = (wide[i].left as f64 - dl, wide[i].right as f64 - dr);
+								let want_l = al * w1 + ar * w2 + dl;
+								let want_r = ar * w1 + al * w2 + dr;
+								let tol = 1e-5 * (al.abs() + ar.abs() + dl.abs() + dr.abs() + wide[i].left.abs() as f64 + wide[i].right.abs() as f64) + 1e-30;
+								if (main_out[i].left as f64 - want_l).abs() > tol || (main_out[i].right as f64 - want_r).abs() > tol {
+									out.oracle_fail(
+										"reverb_width_stage",
+										format!(
+											"frame {} width {} got {:e} {:e} documented {:e} {:e} | {}",
+											i, sw, main_out[i].left, main_out[i].right, want_l, want_r, short(line)
+										),
+									);
+									break;
+								}
+							}
+						}
+					}
 					if self.stagnant {
 						premise("split_equals_whole");
 						for i in 0..n {
@@ -513,7 +630,6 @@ impl Case {
 							}
 						}
 					}
-					let fin = |v: &Vec<Frame>| v.iter().all(|f| f.left.is_finite() && f.right.is_finite());
 					if self.linear && fin(&b_out) && fin(&sum_out) && fin(&scaled_out) {
 						for v in [&y, &b_out, &sum_out] {
 							for f in v.iter() {
@@ -590,6 +706,51 @@ impl Case {
 				self.echo_ok = false;
 				return;
 			}
+		}
+	}
+}
+
+impl Case {
+	/// C14 "echoes at exact multiples of the delay time, each attenuated once more by the feedback gain and shaped
+	/// by the feedback effects": with stagnant feedback gain a and mix, what is read from the line L frames after
+	/// it was written goes through the feedback effects FIRST and is THEN multiplied by a; that is the wet signal,
+	/// and input + wet is written back (C14_delay_recirculates, for any feedback effects). Evaluated here over f64
+	/// for the probe chain (each probe: gain·x + offset + feedback·its previous output, frame by frame), for any
+	/// input. Tolerance: f32 roundings (2^-24 each, < 10 per trip round the loop, loop gain <= 1 in-domain) of the
+	/// largest magnitude that went through the loop: 1e-5 · (trips + 2).
+	fn check_recurrence(&mut self, input: &[Frame], main_out: &[Frame], db: f32, mix: f32, line: &str, out: &mut Out) {
+		let l = self.exact_delay_frames().max(1) as usize;
+		let a = amp_of_db(db);
+		let m = (mix as f64).clamp(0.0, 1.0);
+		let (wet_gain, dry_gain) = (m.sqrt(), (1.0 - m).sqrt());
+		let mut failed = None;
+		for (i, (x, o)) in input.iter().zip(main_out).enumerate() {
+			let t = self.line.len();
+			let mut r = if t >= l { self.line[t - l] } else { (0.0, 0.0) };
+			for (k, &(g, off, fb)) in self.chain.iter().enumerate() {
+				let p = self.chain_prev[k];
+				r = (r.0 * g as f64 + off as f64 + p.0 * fb as f64, r.1 * g as f64 + off as f64 + p.1 * fb as f64);
+				self.chain_prev[k] = r;
+				self.line_max = self.line_max.max(r.0.abs()).max(r.1.abs());
+			}
+			let wet = (r.0 * a, r.1 * a);
+			let w = (x.left as f64 + wet.0, x.right as f64 + wet.1);
+			self.line_max = self.line_max.max(w.0.abs()).max(w.1.abs());
+			self.line.push(w);
+			let want = (wet.0 * wet_gain + x.left as f64 * dry_gain, wet.1 * wet_gain + x.right as f64 * dry_gain);
+			let tol = 1e-5 * ((t / l) as f64 + 2.0) * self.line_max + 1e-37;
+			if failed.is_none() && ((o.left as f64 - want.0).abs() > tol || (o.right as f64 - want.1).abs() > tol) {
+				failed = Some(format!(
+					"frame {} (trip {}) got {:e} {:e} documented {:e} {:e} | {}",
+					t, t / l, o.left, o.right, want.0, want.1, short(line)
+				));
+				let _ = i;
+			}
+		}
+		if let Some(d) = failed {
+			out.oracle_fail("delay_feedback_effects_then_gain", d);
+			// one report per case
+			self.chain.clear();
 		}
 	}
 }
